@@ -3,7 +3,8 @@
    across an authority restart at any point.  Statements only; proofs are in
    Proofs/ContOrderProofs.v (invariant Model/ContInv.v over the transition system Model/ContStore.v). *)
 From RipV Require Import Base.Prelude Model.Frames Model.Log Model.ContStore Model.ContInv Model.SessGuard
-  Gen.AppendOps Proofs.LogProofs Proofs.ContStoreProofs Proofs.ContOrderProofs Proofs.SessGuardProofs.
+  Model.SeqCount Gen.AppendOps Proofs.LogProofs Proofs.ContStoreProofs Proofs.ContOrderProofs Proofs.SessGuardProofs
+  Proofs.SeqCountProofs.
 
 (* "0,1,2,.. no gap, no duplicate, in file order for every stream" and "a full validated replay
    succeeds" are the same statement: rip-log's validator decides Valid *)
@@ -247,6 +248,105 @@ Theorem c01_run_counter_missing_increment_refuted :
   validate (run_frames 7 0 w_noinc_run) = false /\ map seq (run_frames 7 0 w_noinc_run) = [0; 1; 1].
 Proof. exact w_noinc_invalid. Qed.
 Print Assumptions c01_run_counter_missing_increment_refuted.
+
+(* ---- the provider pipe borrows the run-local counter (session.rs OpenResponsesSsePipe; Model/SeqCount.v) ----
+   The pipe numbers the frames of every decoder push from its mapper, emits them and adds `frame_count` to the
+   session's counter; the stream ends at the terminal marker.  For EVERY offset, EVERY list of pushes (every
+   way a provider's event sequence is cut into decoder pushes: events after the marker in the same push or in
+   later ones, no marker, several markers, empty pushes) and EVERY ending (finish() over what the decoder
+   still holds / a transport error): the frames carry off, off+1, .. and the counter the pipe hands back is
+   off + the number of frames it emitted *)
+Theorem c01_pipe_counter : forall (off : N) (pushes : list (list pev)) (e : pend),
+  map snd (fst (run_pipe CutParsed off pushes e)) = nseq off (length (fst (run_pipe CutParsed off pushes e)))
+  /\ snd (run_pipe CutParsed off pushes e) = off + nlen (fst (run_pipe CutParsed off pushes e)).
+Proof. exact pipe_counter_is_frames. Qed.
+Print Assumptions c01_pipe_counter.
+
+(* ... hence a run made of single emit sites and any number of pipes writes 0,1,2,.. on its stream *)
+Theorem c01_run_with_pipes : forall (sid : N) (segs : list seg),
+  forallb seg_ok segs = true -> Valid (run_segs CutParsed sid 0 segs).
+Proof. exact run_with_pipes_valid. Qed.
+Print Assumptions c01_run_with_pipes.
+
+(* ... as built: whether the list that is counted is the list that is emitted is re-read from session.rs on
+   every run (Gen/AppendOps.v gen_pipe_cut, obligation gen_pipe_cut_ok) *)
+Theorem c01_run_with_pipes_as_built : forall (sid : N) (segs : list seg),
+  forallb seg_ok segs = true -> validate (run_segs gen_pipe_cut sid 0 segs) = true.
+Proof. exact (run_with_pipes_as_built gen_ok_pipe_cut gen_pipe_cut gen_pipe_cut_ok). Qed.
+Print Assumptions c01_run_with_pipes_as_built.
+
+(* REFUTED when the mapped frames are cut after `frame_count` was taken (the shape of seeded change C01-8):
+   a text delta, the marker and two late events in ONE push - three frames are emitted, the counter moves by
+   six, the closing frame skips three numbers and the validator rejects the log; the pipe as built on the
+   same input writes 0..8 *)
+Theorem c01_pipe_cut_after_count_refuted :
+  forallb seg_ok w_late_run = true
+  /\ validate (run_segs CutFramesAfterCount 7 0 w_late_run) = false
+  /\ map seq (run_segs CutFramesAfterCount 7 0 w_late_run) = [0; 1; 2; 3; 4; 5; 6; 7; 11]
+  /\ snd (run_pipe CutFramesAfterCount 5 [w_late_push] (EndFinish [])) = 11
+  /\ nlen (fst (run_pipe CutFramesAfterCount 5 [w_late_push] (EndFinish []))) = 3
+  /\ map seq (run_segs CutParsed 7 0 w_late_run) = [0; 1; 2; 3; 4; 5; 6; 7; 8].
+Proof.
+  exact (conj w_late_hyps (conj (proj1 w_late_invalid) (conj (proj1 (proj2 w_late_invalid))
+        (conj (proj1 (proj2 (proj2 w_late_invalid))) (conj (proj2 (proj2 (proj2 w_late_invalid))) (proj2 w_late_as_built)))))).
+Qed.
+Print Assumptions c01_pipe_cut_after_count_refuted.
+
+(* ---- a log append that fails (disk full, file-size limit, I/O error) while the authority keeps running ----
+   `event_log.append(&event)?` returns, the guard is dropped.  A writer cut at its k-th log append is still a
+   well-formed program - for the 11 locked appends (cut = lock, choose, unlock), thread creation, branch and
+   handoff (cut at the lineage frame = a plain creation) ... *)
+Theorem c01_failed_append_skeletons_wf :
+  (forall c t ar k, is_cont t = true -> wf_prog (MTarget c :: fail_at k (locked_append t ar)) = true)
+  /\ (forall ar k, wf_prog (fail_at k (create_prog ar)) = true)
+  /\ (forall t a1 a2 k, is_cont t = true -> wf_prog (fail_at k (lineage_prog t a1 a2)) = true)
+  /\ (forall t ar, fail_at 0 (locked_append t ar) = failed_append)
+  /\ (forall t a1 a2, fail_at 1 (lineage_prog t a1 a2) = create_prog a1).
+Proof.
+  exact (conj wf_fail_at_locked (conj wf_fail_at_create (conj wf_fail_at_lineage (conj fail_at_locked fail_at_lineage_1)))).
+Qed.
+Print Assumptions c01_failed_append_skeletons_wf.
+
+(* ... so c01_valid_all_schedules / c01_restart cover histories with failed appends at any writer, any number
+   of them, interleaved with anything; and once every actor is outside its calls the cached counter of every
+   thread is the number of frames the thread has in the log (next_seq = last_seq + 1): nothing a failed call
+   did is left behind *)
+Theorem c01_failed_append_leaves_counter :
+  forall (ps : list (list mstep * N)) (sched : list N) (st : state),
+  SInv st -> progs_wf ps -> sess_fresh st ps -> sess_distinct ps ->
+  AllIdle (run sched (spawn ps st)) ->
+  forall c n, s_next (run sched (spawn ps st)) c = Some n ->
+              n = next_of KContinuity c (s_log (run sched (spawn ps st))).
+Proof. exact failed_appends_leave_counter. Qed.
+Print Assumptions c01_failed_append_leaves_counter.
+
+(* the calls of every append-failure correspondence case are such programs *)
+Theorem c01_fail_case_calls_wf : forall (l : log) (o : fcall),
+  fcall_ok o = true -> wf_prog (prog_of_fcall l o) = true.
+Proof. exact fcall_wf. Qed.
+Print Assumptions c01_fail_case_calls_wf.
+
+(* non-vacuity: create a thread, a message, run_ended REFUSED, the retry, a message: right after the refused
+   call the counter is 2 and the log has two frames; at the end the thread reads 0,1,2,3 *)
+Example c01_failed_append_example :
+  (SInv empty_state /\ progs_wf w_fail_actors /\ sess_fresh empty_state w_fail_actors /\ sess_distinct w_fail_actors)
+  /\ s_next (run (repeat 0 20) (spawn w_fail_actors empty_state)) 0 = Some 2
+  /\ map seq (s_log (run (repeat 0 20) (spawn w_fail_actors empty_state))) = [0; 1]
+  /\ map seq (cstream 0 (s_log (run (repeat 0 36) (spawn w_fail_actors empty_state)))) = [0; 1; 2; 3]
+  /\ validate (s_log (run (repeat 0 36) (spawn w_fail_actors empty_state))) = true.
+Proof. exact (conj w_fail_hyps w_fail_result). Qed.
+
+(* REFUTED for a writer that reserves its seq - the counter is advanced when the seq is chosen, before the
+   frame is in the log (the shape of seeded change C01-7): the refused call is not a well-formed program,
+   leaves the counter at 3 over two frames, and the same history reads 0,1,3,4 *)
+Theorem c01_reserved_seq_refuted :
+  wf_prog (MTarget 0 :: reserved_failed_append) = false
+  /\ s_next (run (repeat 0 21) (spawn w_reserve_actors empty_state)) 0 = Some 3
+  /\ map seq (s_log (run (repeat 0 21) (spawn w_reserve_actors empty_state))) = [0; 1]
+  /\ map seq (cstream 0 (s_log (run (repeat 0 37) (spawn w_reserve_actors empty_state)))) = [0; 1; 3; 4]
+  /\ validate (s_log (run (repeat 0 37) (spawn w_reserve_actors empty_state))) = false.
+Proof. exact w_reserve_invalid. Qed.
+Print Assumptions c01_reserved_seq_refuted.
 
 (* non-vacuity: four clients on one session next to a thread creation, another run and a task pump meet
    the hypotheses, and one schedule of theirs writes 7 frames on 4 streams *)
